@@ -677,6 +677,33 @@ def imm_cases() -> list[tuple[str, callable, str, int]]:
         cs.append((f"InnerTxn.application_args[{s}]", _val(lambda s=s: pt.InnerTxn.application_args[s]), "app", 6))
         cs.append((f"Txn.assets[{s}]", _val(lambda s=s: pt.Txn.assets[s]), "app", 6))
         cs.append((f"ScratchLoad(slotId={s})", _val(lambda s=s: pt.ScratchLoad(slotId=s, type=pt.TealType.uint64) if True else None), "app", 6))
+    # frame-local indexes are one-byte SIGNED immediates: many ABI locals in one routine (with and without a reserved output slot)
+    def many_locals(n, with_output):
+        def th():
+            abi = pt.abi
+
+            def body(output=None):
+                vs = [abi.Uint64() for _ in range(n)]
+                tot = pt.Int(0)
+                for v in vs[:3] + vs[-3:]:
+                    tot = tot + v.get()
+                sets = [v.set(pt.Int(i)) for i, v in enumerate(vs)]
+                return pt.Seq(*sets, output.set(tot)) if output is not None else pt.Seq(*sets, tot)
+            if with_output:
+                def f(*, output: abi.Uint64):
+                    return body(output)
+                sub = pt.ABIReturnSubroutine(f)
+                r_ = abi.Uint64()
+                return pt.Seq(sub().store_into(r_), pt.Pop(r_.get()), pt.Approve())
+
+            def g():
+                return body()
+            return pt.Seq(pt.Pop(pt.Subroutine(pt.TealType.uint64)(g)()), pt.Approve())
+        return th
+    for n in (126, 127, 128, 129, 140):
+        for wo in (False, True):
+            for v in (8, 10):
+                cs.append((f"frame-locals({n},output={wo})v{v}", many_locals(n, wo), "app", v))
     for a, bb in ((0, 255), (255, 256), (256, 300), (3, 1000)):
         cs.append((f"Substring({a},{bb})", _val(lambda a=a, bb=bb: pt.Substring(pt.Txn.note(), I(a), I(bb))), "app", 6))
         cs.append((f"Substring({a},{bb})v2", _val(lambda a=a, bb=bb: pt.Substring(pt.Txn.note(), I(a), I(bb))), "sig", 2))
